@@ -687,7 +687,7 @@ def expand_additional_doses(model: Model, flag: bool = False):
         df['_RESETGROUP'] = 1.0
     else:
         df['_FLAG'] = df[event] >= 3
-        df['_RESETGROUP'] = df.groupby('ID')['_FLAG'].cumsum()
+        df['_RESETGROUP'] = df.groupby(idcol)['_FLAG'].cumsum()
         df.drop('_FLAG', axis=1, inplace=True)
 
     def fn(a):
@@ -773,7 +773,7 @@ def get_doseid(model: Model):
         df['_RESETGROUP'] = 1.0
     else:
         df['_FLAG'] = df[eventcol] >= 3
-        df['_RESETGROUP'] = df.groupby('ID')['_FLAG'].cumsum()
+        df['_RESETGROUP'] = df.groupby(idcol)['_FLAG'].cumsum()
 
     try:
         ss = model.datainfo.typeix['ss'][0].name
@@ -901,9 +901,10 @@ def get_admid(model: Model):
     adm.name = "ADMID"
 
     # Replace all observations with the previous admid type
+    idcol = di.id_column.name
     current_admin = adm[0]
-    current_subject = model.dataset["ID"][0]
-    for i, data in enumerate(zip(get_evid(model), adm, model.dataset["ID"])):
+    current_subject = model.dataset[idcol][0]
+    for i, data in enumerate(zip(get_evid(model), adm, model.dataset[idcol])):
         event = data[0]
         admin = data[1]
         subject = data[2]
